@@ -1,7 +1,7 @@
 ------------------------------- MODULE T_C10 -------------------------------
 (* Trace validation for C10: one record per input holding the five outcomes (relational            *)
 (* property-on-trace), plus the absolute-parser probe events of all runs (refinement-on-trace).     *)
-EXTENDS O_C10, AbsTrace, Json, IOUtils
+EXTENDS O_C10, AbsTrace, NoSpaces, Json, IOUtils
 
 Tr == ndJsonDeserialize(IOEnv.TRACE_FILE)
 VARIABLE l
@@ -22,8 +22,17 @@ PropVerdict(r) ==
   ELSE IF r.gen /\ ~RequireStates(r.outR, ps, R) THEN "result-without-required-part"
   ELSE "ok"
 
+\* refinement-on-trace of the no-spaces parser (NoSpaces.tla)
+NspModel(r) == IF ~r.eligible THEN [out |-> NSFail, period |-> ""]
+               ELSE NoSpacesParse(r.toks, r.order, r.strict, SeqToSet(r.require))
+NspVerdict(r) == IF r.skip THEN "skip"
+                 ELSE LET m == NspModel(r) IN
+                      IF m.out = r.out /\ (m.out = NSFail \/ m.period = r.period) THEN "ok" ELSE "drift"
 Check(r) ==
-  IF r.kind = "abs"
+  IF r.kind = "nsp"
+    THEN LET v == NspVerdict(r) IN
+         IF v = "drift" THEN PrintT(<<"REJECT", r.tid, "abs", "nospaces", NspModel(r)>>) ELSE TRUE
+  ELSE IF r.kind = "abs"
     THEN LET v == AbsVerdict(r) IN
          IF v = "drift" THEN PrintT(<<"REJECT", r.tid, "abs", v, AbsModel(r)>>)
          ELSE IF v = "skip" THEN PrintT(<<"SKIP", r.tid, "abs">>) ELSE TRUE
